@@ -25,4 +25,13 @@ theorem txSize_eq_translated (iw : Bool) (ins : List (Nat × List Nat)) (nOut ou
   simp only [← cs_eq_size]
   cases iw <;> cases h : (ins.any fun i => !i.2.isEmpty) <;> simp <;> omega
 
+/-- the threshold the estimate reads off OP_m is m, for EVERY m (OP_16 included) -/
+theorem p2msM_eq (pl : Bytes) (m : Nat) (hm : Btc.Script.Core.getB pl 0 = Gen.Fee.OP_INT_OFFSET.toNat + m) :
+    p2msM pl = m := by
+  unfold p2msM Gen.Fee.p2ms_threshold
+  rw [hm]
+  have : Gen.Fee.OP_INT_OFFSET = 80 := rfl
+  simp only [this]
+  omega
+
 end Btc.C18
